@@ -365,6 +365,7 @@ def adp_cases(tier):
   cs += _ea.surplus_cases("eam_adp", tier)
   cs += _ea.after_failure_cases("eam_adp", tier)
   cs += _ea.written_first_cases("eam_adp", tier)
+  cs += _ea.energy_override_cases("eam_adp", tier)
   return cs
 
 
